@@ -101,6 +101,8 @@ let diff_oc = ref stdout
 let stats : (string, int) Hashtbl.t = Hashtbl.create 64
 let bump k = Hashtbl.replace stats k (1 + (try Hashtbl.find stats k with Not_found -> 0))
 let ndiff = ref 0
+let nt_tab : (string, unit) Hashtbl.t = Hashtbl.create 100000
+let nontrivial (key : string) = Hashtbl.replace nt_tab (Digest.to_hex (Digest.string key)) ()
 let report tag id field exp got line =
   incr ndiff; bump ("diff:" ^ field);
   if !ndiff <= 20000 then Printf.fprintf !diff_oc "D|%s|%s|%s|exp=%s|got=%s|%s\n" tag id field exp got line
@@ -196,6 +198,8 @@ let check_B line toks =
               if List.length (List.sort_uniq compare ss) <> List.length ss then report "B" id "san-unique" "distinct" "collision" line
             | None -> ());
            (* features *)
+           if b.b_checks <> N0 || b.b_pinned <> N0 || b.b_ep <> None || b.b_term || b.b_wr <> Neither || b.b_br <> Neither
+              || List.exists (fun (_, m) -> match m with MovePiece pm -> pm.pm_promo <> None | _ -> false) ms then nontrivial ("B" ^ d);
            if b.b_checks <> N0 then bump "feat:in-check";
            if int_of_n (popcount b.b_checks) >= 2 then bump "feat:double-check";
            if b.b_pinned <> N0 then bump "feat:pinned";
@@ -310,6 +314,7 @@ let check_G line toks =
   | None -> ()
   | Some nd ->
     let g = nd.g in
+    nontrivial ("G" ^ id);
     let exp field e = match get field with Some got -> if got <> e then report "G" id field e got line | None -> () in
     (match get "gs" with
      | None -> Hashtbl.replace gtab id { nd with sync = false }
@@ -390,6 +395,9 @@ let check_S line toks =
       bump "S-mv-ok"; "ok:" ^ string_of_bytes t ^ ":" ^ rp
     | Err _ -> "err" | Panic -> "panic" in
   exp "mv" mv;
+  (let raw = unhex (match get "in" with Some x -> x | None -> "") in
+   let accepted = List.exists (fun k -> match get k with Some v -> String.length v > 1 && String.sub v 0 2 = "ok" | None -> false) ["mv"; "sq"; "fl"; "rk"; "pt"] in
+   if accepted || String.contains raw '=' || List.exists (fun c -> Char.code c >= 128) (List.init (String.length raw) (String.get raw)) then nontrivial ("S" ^ raw));
   let r f = function Ok x -> "ok:" ^ f x | Err _ -> "err" | Panic -> "panic" in
   let ni x = string_of_int (int_of_n x) in
   exp "sq" (r ni (parse_sq s)); exp "fl" (r ni (parse_file s)); exp "rk" (r ni (parse_rank s));
@@ -404,26 +412,28 @@ let check_F line toks =
   let fen = match from_fen !keys s with
     | Ok b -> bump "F-accepted"; (match as_fen b with Ok t -> "ok:" ^ string_of_bytes t | _ -> "panic")
     | Err _ -> bump "F-rejected"; "err" | Panic -> "panic" in
+  (match parse_fen s with Ok _ -> nontrivial ("F" ^ (match get "in" with Some x -> x | None -> "")) | _ -> ());
   exp "fen" fen; exp "gfen" "same";
   exp "bfen" (match parse_fen s with Ok bd -> "ok:" ^ string_of_bytes (print_fen bd) | Err _ -> "err" | Panic -> "panic")
 let check_N line toks =
   let fs = fields_of toks in
   let get k = List.assoc_opt k fs in
   let id = match get "id" with Some x -> x | None -> "?" in
-  bump "N-records";
+  bump "N-records"; nontrivial ("N" ^ id);
   (match get "pgn" with Some "panic" -> report "N" id "pgn" "ok-or-err" "panic" line | Some x -> bump ("N-" ^ x) | None -> ());
   (match get "slow" with Some "yes" -> report "N" id "slow" "no" "yes" line | _ -> ())
 let check_M line toks =
   let fs = fields_of toks in
   let get k = List.assoc_opt k fs in
   let id = match get "id" with Some x -> x | None -> "?" in
-  bump "M-records";
+  bump "M-records"; nontrivial ("M" ^ (match get "d" with Some x -> x | None -> id));
   (match get "flip" with Some "ok" -> () | Some x -> report "M" id "flip" "ok" x line | None -> ());
   (match get "mirror" with Some "ok" -> bump "M-mirror" | Some "na" -> () | Some x -> report "M" id "mirror" "ok" x line | None -> ())
 let check_T line toks =
   bump "T-records";
   match toks with
   | [name; idx; v] ->
+    nontrivial ("T" ^ name ^ idx);
     let ix = List.map int_of_string (String.split_on_char ',' idx) in
     let s = n_of_int (List.hd ix) in
     let some x = dec_of_n x in
@@ -446,6 +456,7 @@ let check_P line toks =
   match toks with
   | f :: a :: rest ->
     let v = String.concat "|" rest in
+    nontrivial ("P" ^ f ^ a);
     let ai = (try int_of_string a with _ -> -1) in
     let an = (if ai >= 0 then n_of_int ai else N0) in
     let two () = match String.split_on_char ',' a with [x; y] -> (int_of_string x, int_of_string y) | _ -> (0, 0) in
@@ -491,7 +502,8 @@ let check_P line toks =
         let x = n_of_hex a in
         let osq = function None -> "-" | Some s -> ni s in
         Some (String.concat "|" [String.concat "," (List.map ni (bits x)); ni (popcount x); osq (first_bit_square x); osq (last_bit_square x);
-                                 (match to_square x with Ok s -> ni s | _ -> "panic"); (if x = N0 then "1" else "0"); tohex (string_of_bytes (render_bb x))])
+                                 (match to_square x with Ok s -> ni s | _ -> "panic"); (if x = N0 then "1" else "0")])
+      | "bb_render" -> Some (tohex (string_of_bytes (render_bb (n_of_hex a))))
       | "bb_ops" -> (match String.split_on_char ',' a with
           | [x; y] -> let (x, y) = (Int64.of_string ("0x" ^ x), Int64.of_string ("0x" ^ y)) in
             Some (Printf.sprintf "%016Lx,%016Lx,%016Lx,%016Lx" (Int64.logand x y) (Int64.logor x y) (Int64.logxor x y) (Int64.lognot x))
@@ -536,4 +548,9 @@ let () =
   let oc = open_out Sys.argv.(4) in
   Hashtbl.iter (fun k v -> Printf.fprintf oc "%s %d\n" k v) stats;
   Printf.fprintf oc "diffs %d\n" !ndiff;
+  close_out oc;
+  let st = Sys.argv.(4) in
+  let ntf = (if Filename.check_suffix st ".stats" then Filename.chop_suffix st ".stats" else st) ^ ".nt" in
+  let oc = open_out ntf in
+  Hashtbl.iter (fun k () -> output_string oc k; output_char oc '\n') nt_tab;
   close_out oc
